@@ -719,7 +719,10 @@ fn parse_constant_value(
                 .map(|x| x.map(GraphQLConstantValue::Enum))
         })?;
 
-        to_control_flow(|| {
+        // Once the opening bracket or brace has been consumed, an error inside it is the
+        // error of this value: no other kind of value can start in the middle of it.
+        let starts_list = tokens.peek().item == TokenKind::OpenBracket;
+        let list = to_control_flow(|| {
             tokens.with_embedded_location_result::<_, Diagnostic>(|tokens| {
                 tokens.parse_token_of_kind(TokenKind::OpenBracket)?;
                 let mut values = vec![];
@@ -728,9 +731,13 @@ fn parse_constant_value(
                 }
                 GraphQLConstantValue::List(values).wrap_ok()
             })
-        })?;
+        });
+        if starts_list {
+            return list;
+        }
 
-        to_control_flow(|| {
+        let starts_object = tokens.peek().item == TokenKind::OpenBrace;
+        let object = to_control_flow(|| {
             tokens.with_embedded_location_result::<_, Diagnostic>(|tokens| {
                 tokens.parse_token_of_kind(TokenKind::OpenBrace)?;
 
@@ -743,7 +750,10 @@ fn parse_constant_value(
                 }
                 GraphQLConstantValue::Object(values).wrap_ok()
             })
-        })?;
+        });
+        if starts_object {
+            return object;
+        }
 
         ControlFlow::Continue(Diagnostic::new(
             "Unable to parse constant value".to_string(),
